@@ -28,6 +28,7 @@ if [ "$mode" != "detect" ]; then
     go test -tags verif -vet=off -count=1 -run "$pat" ./$pkg/ >/tmp/seed-demo$1a.$$ 2>&1 || ok=1
     FASTGO_VERIF_ARCHLEVEL=0 go test -tags verif -vet=off -count=1 -run "$pat" ./$pkg/ >/tmp/seed-demo$1b.$$ 2>&1 || ok=1
     FASTGO_VERIF_ARCHLEVEL=1 go test -tags verif -vet=off -count=1 -run "$pat" ./$pkg/ >/tmp/seed-demo$1c.$$ 2>&1 || ok=1
+    go test -tags noasmtest -vet=off -count=1 -run "$pat" ./$pkg/ >/tmp/seed-demo$1e.$$ 2>&1 || ok=1
     if [ "$prop" = "C17" ]; then go test -race -tags verif -vet=off -count=1 -run "$pat" ./$pkg/ >/tmp/seed-demo$1d.$$ 2>&1 || ok=1; fi
     return $ok
   }
